@@ -134,3 +134,9 @@ def enum_cpp(e):
 def template_arity(t):
     """number of parameters of a template (-1: not a template)"""
     return len(t.typenames) if isinstance(t, Template) else -1
+
+
+@spec(rec=True, ret='any', reads='tree')
+def ns_root(n):
+    """the outermost namespace: the first ancestor without a name or without a parent"""
+    return n if (n.name == '' or isinstance(n.parent, str)) else ns_root(n.parent)
